@@ -1265,6 +1265,9 @@ def single_oracle(case, out):
                     # the counter itself: the property does not decide this loop
                     return None
                 c = round24(c + st, ties)
+                big = mbf_value(SINGLE_MAX)
+                if abs(c) > big:
+                    c = big if c > 0 else -big      # overflow: the counter becomes machine infinity
             if not ended:
                 return None
         return 'the loop did not end although the accumulated counter passes the end'
